@@ -378,6 +378,11 @@ func (r *runner) interleave(s1, s2 *spec, base string, wins []window) {
 	}
 }
 
+var (
+	histPath, isoPath string
+	histSeed          int64
+)
+
 func main() {
 	if len(os.Args) < 2 {
 		fmt.Fprintln(os.Stderr, "usage: c14 run|adhoc ...")
@@ -395,6 +400,9 @@ func main() {
 	shards := fs.Int("shards", 1, "number of shards")
 	query := fs.String("q", "", "adhoc: one query")
 	lang := fs.String("lang", "logql", "adhoc: logql|traceql")
+	histp := fs.String("hist", "", "neighbour pairs exported by TLC from ReplanHist.tla (json)")
+	isop := fs.String("iso", "", "isolated translations of the requests of the pairs (written by isolate-all)")
+	reqj := fs.String("req", "", "isolate: one abstract request (json)")
 	fs.Parse(os.Args[2:])
 
 	// the planners print debugging output to stdout
@@ -404,6 +412,10 @@ func main() {
 		os.Stdout = devnull
 	}
 
+	if os.Args[1] == "isolate-all" {
+		isolateAll(*histp, *outp, *seed)
+		return
+	}
 	t0 := time.Now()
 	x, err := newX(*cluster)
 	if err != nil {
@@ -414,7 +426,7 @@ func main() {
 	if rconfig.Cloki == nil {
 		rconfig.Cloki = &clconfig.ClokiConfig{}
 	}
-	if os.Args[1] == "probe" {
+	if os.Args[1] == "probe" || os.Args[1] == "isolate" {
 	} else if err := x.populate(!*noTail && os.Args[1] == "run"); err != nil {
 		fmt.Fprintln(os.Stderr, "populate:", err)
 		os.Exit(2)
@@ -435,7 +447,11 @@ func main() {
 		r.trace = f
 	}
 
+	histPath, isoPath, histSeed = *histp, *isop, *seed
 	switch os.Args[1] {
+	case "isolate":
+		r.isolate(*reqj, *seed, realStdout)
+		return
 	case "adhoc":
 		var s *spec
 		if *lang == "traceql" {
